@@ -120,11 +120,11 @@ def run(ctx):
         root, zips, corrupts = gen_case(ctx, i)
         obs = fstree.observe(root)
         for dfs in (False, True):
-            jobs.append(dict(root=root, zips=zips, corrupts=corrupts, obs=obs, dfs=dfs, mx=rng.choice([0, 0, 2])))
+            jobs.append(dict(root=root, zips=zips, corrupts=corrupts, obs=obs, dfs=dfs, mx=rng.choice([0, 0, 2]), mn=rng.choice([0, 0, 2, 3])))
 
     def one(j):
         rb = os.path.basename(j["root"])
-        opt = (" maxdepth %d" % j["mx"] if j["mx"] else "") + (" dfs" if j["dfs"] else "")
+        opt = (" mindepth %d" % j["mn"] if j["mn"] else "") + (" maxdepth %d" % j["mx"] if j["mx"] else "") + (" dfs" if j["dfs"] else "")
         r_arc = ctx.impl.rows(["path from %s archives%s into list" % (rb, opt)], cwd=ctx.scratch)
         r_no = ctx.impl.rows(["path from %s%s into list" % (rb, opt)], cwd=ctx.scratch)
         cols, rc = qlib.select(ctx.impl, "path, name, size, is_dir, mode, modified", "from %s arc%s" % (rb, opt), cwd=ctx.scratch)
@@ -145,7 +145,7 @@ def run(ctx):
     for j in jobs:
         zl = {p: [m[0] for m in ms] for p, ms in j["zips"].items()}
         rb = os.path.basename(j["root"])
-        exprs.append(walklib.walk_expr([(walklib.opts_term(0, j["mx"], j["dfs"], arc=True), rb, os.path.realpath(j["root"]),
+        exprs.append(walklib.walk_expr([(walklib.opts_term(j["mn"], j["mx"], j["dfs"], arc=True), rb, os.path.realpath(j["root"]),
                                          walklib.node_term(j["obs"], zips=zl), fstree.count(j["obs"]) + 1)]))
     model = walklib.safe_walk_eval(ctx, exprs, "c19", 8)
     for j, (r_arc, r_no, cols, rc, r_f, r_fa, lim, ul), m in zip(jobs, res, model):
@@ -155,7 +155,7 @@ def run(ctx):
         rows_no = [v.decode("utf-8", "surrogateescape") for v in r_no["values"]]
         rel = lambda p: os.path.join(rb, os.path.relpath(p, j["root"]))
         case = {"tree": j["root"], "archives": {rel(p): [m_[0] for m_ in ms] for p, ms in j["zips"].items()}, "corrupt": sorted(rel(p) for p in j["corrupts"]),
-                "argv": ["path from %s archives" % rb]}
+                "argv": ["path from %s archives%s%s%s" % (rb, " mindepth %d" % j["mn"] if j["mn"] else "", " maxdepth %d" % j["mx"] if j["mx"] else "", " dfs" if j["dfs"] else "")]}
         if r_arc["status"] != 0 or r_arc["stderr"] or r_no["status"] != 0:
             ctx.violation("impl-violates-spec", "archive search: status %s, stderr %r" % (r_arc["status"], r_arc["stderr"][:200]), input=case)
             continue
@@ -242,6 +242,6 @@ def run(ctx):
     st["hist"]["archives_with_unopenable_member"] = getattr(ctx, "badmember_count", 0)
     ctx.coverage.update(
         evaluations=st["evaluations"], distinct_nontrivial=len(st["distinct"]), traces_validated_against_impl=st["agreed"],
-        rule="random trees with 1-4 zip archives (0-8 members: nested dirs, stored/deflated, every file type and permission bits in the unix mode, dates across months incl. months shorter than today's day, unicode/space names), extensions .zip/.jar/.war/.ear in mixed case, a zip under another extension, a non-empty directory named *.zip / *.jar (and a link to it named *.ear), corrupt archives (truncated, flipped central-directory bytes, garbage), archives with one member that cannot be opened (marked encrypted; it is skipped, the rest listed) x bfs/dfs x maxdepth: ordinary rows unchanged, members exactly once after their archive in index order, member columns (name, size, is_dir, mode, modified) = what the archive stores, WHERE/ORDER BY/LIMIT apply (ordered top N, and the unordered first N of filtered searches); exact row sequence vs model.Walk; plus every truncation point of one archive. non-trivial = at least two members",
+        rule="random trees with 1-4 zip archives (0-8 members: nested dirs, stored/deflated, every file type and permission bits in the unix mode, dates across months incl. months shorter than today's day, unicode/space names), extensions .zip/.jar/.war/.ear in mixed case, a zip under another extension, a non-empty directory named *.zip / *.jar (and a link to it named *.ear), corrupt archives (truncated, flipped central-directory bytes, garbage), archives with one member that cannot be opened (marked encrypted; it is skipped, the rest listed) x bfs/dfs x mindepth/maxdepth windows (an archive outside the window contributes no member row): ordinary rows unchanged, members exactly once after their archive in index order, member columns (name, size, is_dir, mode, modified) = what the archive stores, WHERE/ORDER BY/LIMIT apply (ordered top N, and the unordered first N of filtered searches); exact row sequence vs model.Walk; plus every truncation point of one archive. non-trivial = at least two members",
         samples=st["samples"], distribution=dict(st["hist"]))
     return ctx.finish(trusted=["the zip listing (which members a readable archive has) is an input: Python zipfile writes the archives, the zip crate reads them; corrupt archives are only required not to abort or lose other rows"])
